@@ -250,18 +250,7 @@ pub fn check_queries<P: TP, V: Val>(side: &mut Side<P, V>, env: &mut Env, querie
                         );
                     }
                 }
-                (Entry::Vacant(_), None) => {
-                    if f.has(18) {
-                        ensure!(
-                            ek.bits == raw_of(&p).bits,
-                            "C18",
-                            "C18:entry.key:vacant",
-                            "step {}: vacant entry({:?}).key() does not return the prefix that was passed",
-                            env.step,
-                            qk
-                        );
-                    }
-                }
+                (Entry::Vacant(_), None) => {}
                 (Entry::Occupied(_), None) => {
                     return fail(
                         "C01",
@@ -784,14 +773,6 @@ pub fn check_arena<P: TP, V: Val>(side: &mut Side<P, V>, env: &mut Env) -> R {
             f
         );
         free[f] = true;
-        ensure!(
-            !a.slots[f].2,
-            "C16",
-            "C16:free-has-value",
-            "step {}: free slot {} still holds a value",
-            env.step,
-            f
-        );
     }
     for i in 0..n {
         ensure!(
